@@ -7,6 +7,7 @@ package rfmt
 import (
 	stdfmt "fmt"
 	"reflect"
+	"strings"
 )
 
 // VerifResetSafeTypes empties the safe-type registry (configuration changes in C05).
@@ -15,40 +16,73 @@ func VerifResetSafeTypes() { safeTypeRegistry = map[reflect.Type]bool{} }
 // VerifHookInstalled reports whether an error hook is installed.
 func VerifHookInstalled() bool { return redactErrorFn != nil }
 
-// VerifDump renders every per-call field of a pooled printer (x must be *pp).
+// VerifDump renders every field of a pooled printer, by reflection (so that it
+// does not depend on the names of the printer's fields): scalars by value,
+// pointers/interfaces/funcs as nil-or-set, slices as len/cap, structs recursively.
 func VerifDump(x interface{}) string {
-	p, ok := x.(*pp)
-	if !ok || p == nil {
-		return stdfmt.Sprintf("<%T>", x)
+	v := reflect.ValueOf(x)
+	for v.Kind() == reflect.Ptr && !v.IsNil() {
+		v = v.Elem()
 	}
-	st := p.buf.VerifState()
-	return stdfmt.Sprintf("ov=%d arg=%v val=%v reord=%v good=%v pan=%v err=%v wrapErrs=%v wrapped=%v flags=%+v wid=%d prec=%d | len=%d cap=%d nil=%v vu=%d mode=%d open=%v",
-		p.override, p.arg != nil, p.value.IsValid(), p.reordered, p.goodArgNum, p.panicking, p.erroring, p.wrapErrs, p.wrappedErr != nil,
-		p.fmt.fmtFlags, p.fmt.wid, p.fmt.prec,
-		len(st.Buf), st.Cap, st.Nil, st.ValidUntil, st.Mode, st.MarkerOpen)
+	var b strings.Builder
+	dumpValue(&b, v, 0)
+	return b.String()
 }
 
-// VerifClean reports whether a pooled printer is in the state a fresh one would
-// be in as far as the NEXT call can observe (fields not re-initialised by newPrinter).
-func VerifClean(x interface{}) (bool, string) {
-	p, ok := x.(*pp)
-	if !ok || p == nil {
-		return false, "not a printer"
+func dumpValue(b *strings.Builder, v reflect.Value, depth int) {
+	if depth > 6 {
+		b.WriteString("…")
+		return
 	}
-	st := p.buf.VerifState()
-	switch {
-	case p.override != noOverride:
-		return false, "override left set"
-	case p.wrappedErr != nil:
-		return false, "wrappedErr left set"
-	case len(st.Buf) != 0:
-		return false, "buffer not empty"
-	case st.MarkerOpen:
-		return false, "markerOpen left set"
-	case st.Mode != 0:
-		return false, "mode not reset"
-	case st.ValidUntil != 0:
-		return false, "validUntil not reset"
+	switch v.Kind() {
+	case reflect.Bool:
+		stdfmt.Fprintf(b, "%v", v.Bool())
+	case reflect.Int, reflect.Int8, reflect.Int16, reflect.Int32, reflect.Int64:
+		stdfmt.Fprintf(b, "%d", v.Int())
+	case reflect.Uint, reflect.Uint8, reflect.Uint16, reflect.Uint32, reflect.Uint64, reflect.Uintptr:
+		stdfmt.Fprintf(b, "%d", v.Uint())
+	case reflect.Float32, reflect.Float64:
+		stdfmt.Fprintf(b, "%g", v.Float())
+	case reflect.String:
+		stdfmt.Fprintf(b, "%q", v.String())
+	case reflect.Slice:
+		if v.IsNil() {
+			b.WriteString("nil[]")
+		} else {
+			stdfmt.Fprintf(b, "[len=%d cap=%d]", v.Len(), v.Cap())
+		}
+	case reflect.Array:
+		if v.Len() > 0 && v.Type().Elem().Kind() == reflect.Uint8 {
+			b.WriteString("[bytes]") // scratch space, contents are not state
+			return
+		}
+		b.WriteString("[")
+		for i := 0; i < v.Len(); i++ {
+			dumpValue(b, v.Index(i), depth+1)
+			b.WriteString(",")
+		}
+		b.WriteString("]")
+	case reflect.Struct:
+		if v.Type() == reflect.TypeOf(reflect.Value{}) {
+			// a reflect.Value field: valid or not
+			stdfmt.Fprintf(b, "reflect.Value(set=%v)", v.Field(0).Kind() == reflect.Ptr && !v.Field(0).IsNil())
+			return
+		}
+		b.WriteString("{")
+		for i := 0; i < v.NumField(); i++ {
+			b.WriteString(v.Type().Field(i).Name)
+			b.WriteString(":")
+			dumpValue(b, v.Field(i), depth+1)
+			b.WriteString(" ")
+		}
+		b.WriteString("}")
+	case reflect.Ptr, reflect.Interface, reflect.Func, reflect.Map, reflect.Chan, reflect.UnsafePointer:
+		if v.IsNil() {
+			b.WriteString("nil")
+		} else {
+			b.WriteString("set")
+		}
+	default:
+		b.WriteString("?")
 	}
-	return true, ""
 }
